@@ -18,12 +18,12 @@ package index
 //     the batches whose own call returned the error; Close succeeds and the
 //     index reopens with everything acknowledged.
 //
-// vf:harness property=C14 cases=nf:0..1;order:0..1 cases.thorough=nf:1..2;order:0..2 sched=1 schedbudget=1 schedbudget.thorough=2 preempt=0 goinline=1 chanslack=8 deadlock=violation clock=zero maxpaths=400000 replay=model-only diff=off
+// vf:harness property=C14 cases=nf:0..1;order:0..1 cases.thorough=nf:1..2;order:0..2 sched=1 schedbudget=1 preempt=0 goinline=1 chanslack=8 deadlock=violation clock=zero maxpaths=400000 replay=model-only diff=off
 // vf:replace hash/crc32.Update vfChecksumUpdate
 // vf:replace io.CopyN vfCopyN
 // vf:replace (*github.com/RoaringBitmap/roaring.Bitmap).ReadFrom vfRoaringReadFrom
 // vf:replace (*github.com/RoaringBitmap/roaring.Bitmap).ToBytes vfRoaringToBytes
-// vf:bounds default schedule: lowest goroutine id first or longest-waiting first (FIFO), thorough also highest id first; history: update id 1, update id 2, then (faults cleared) update id 3, arbitrary payloads, one caller, safe mode, fresh model directory; at most nf failing directory operations (quick 1, thorough 2) placed anywhere by symbolic choice (Persist fails before any byte; Load, Remove, List fail outright); the real loops as cooperative goroutines with at most schedbudget departures from the default schedule at blocking points; crash images as in VF_C02_AckedBatchIsDurable
+// vf:bounds default schedule: lowest goroutine id first or longest-waiting first (FIFO), thorough also highest id first; history: update id 1, update id 2, then (faults cleared) update id 3, arbitrary payloads, one caller, safe mode, fresh model directory; at most nf failing directory operations (quick 1, thorough 2) placed anywhere by symbolic choice (Persist fails before any byte; Load, Remove, List fail outright); the real loops as cooperative goroutines with at most one departure from the default schedule at a blocking point; crash images as in VF_C02_AckedBatchIsDurable
 // vf:assume as VF_C02_AckedBatchIsDurable; a Persist that fails leaves no item (directory_fs.go removes the partial file — that clean-up itself is C13's subject); sticky faults (a directory that never recovers) make the persister retry forever and are outside
 func VF_C14_LiveTransientFaults(nf int, order int) {
 	vfSchedOrder(order)
